@@ -373,6 +373,160 @@ def _b(m):
             m['body_plain'][:1] if m['body_plain'] else None)
 
 
+def run_churn(cycles, live, same_path):
+    """a long-lived connection: short-lived objects of two classes with
+    different interfaces exported beneath a permanent parent, queried, then
+    unexported and dropped `live` cycles later.  Announcements,
+    introspection and GetManagedObjects name each object's own interfaces
+    and properties"""
+    import gc
+    from txdbus import objects as O, interface as I
+    viol = []
+    cw = fakes.ClientWorld()
+    serial = [5000]
+
+    def call(path, iface, member):
+        serial[0] += 1
+        cw.conn.dataReceived(R.encode_message(
+            R.METHOD_CALL, serial[0],
+            {'path': path, 'member': member, 'sender': CALLER,
+             'destination': ':1.7', 'interface': iface}))
+        return [m for m in cw.sent()
+                if m['fields'].get('reply_serial') == serial[0]]
+    try:
+        cw.sent()
+        ifs = {}
+        for tag, prop in (('Left', 'Name'), ('Right', 'Title')):
+            ifs[tag] = I.DBusInterface(
+                'org.ex.' + tag, I.Method('Ping', '', 's'),
+                I.Property(prop, 's'), noRegister=True)
+
+        class Left(O.DBusObject):
+            dbusInterfaces = [ifs['Left']]
+            Name = O.DBusProperty('Name')
+
+            def __init__(self, path):
+                O.DBusObject.__init__(self, path)
+                self.Name = 'L' + path
+
+        class Right(O.DBusObject):
+            dbusInterfaces = [ifs['Right']]
+            Title = O.DBusProperty('Title')
+
+            def __init__(self, path):
+                O.DBusObject.__init__(self, path)
+                self.Title = 'R' + path
+        cw.conn.exportObject(O.DBusObject('/churn'))
+        cw.sent()
+        alive = {}           # path -> (interface name, properties)
+        order = []
+        for n in range(cycles):
+            path = '/churn/o' if same_path else '/churn/o%d' % n
+            left = (n % 2 == 0) if not same_path else (n % 3 != 1)
+            obj = (Left if left else Right)(path)
+            mine = ('org.ex.Left', {'Name': 'L' + path}) if left else \
+                ('org.ex.Right', {'Title': 'R' + path})
+            cw.conn.exportObject(obj)
+            del obj
+            alive[path] = mine
+            order.append(path)
+            sigs = cw.sent()
+            where = 'cycle %d (%d objects live, %s)' % (
+                n, len(alive), 'one path' if same_path else
+                'a path per object')
+            ann = [m for m in sigs if m['type'] == 4 and
+                   m['fields'].get('member') == 'InterfacesAdded']
+            ok = len(ann) == 1 and len(sigs) == 1 and \
+                ann[0]['body'][0] == path and \
+                isinstance(ann[0]['body_plain'][1], dict) and \
+                ann[0]['body_plain'][1].get(mine[0]) == mine[1] and \
+                not any(k.startswith('org.ex.') and k != mine[0]
+                        for k in ann[0]['body_plain'][1])
+            if not ok:
+                viol.append(('churn/announcement/added',
+                             '%s: export of a %s object at %s announced %r'
+                             % (where, mine[0], path,
+                                [(m['fields'].get('member'),
+                                  m['body_plain']) for m in sigs])))
+                return viol
+            r = call(path, 'org.freedesktop.DBus.Introspectable',
+                     'Introspect')
+            got = set()
+            if len(r) == 1 and r[0]['type'] == 2:
+                xml = r[0]['body'][0]
+                got = {x.get('name') for x in ET.fromstring(
+                    xml[xml.index('<node'):]).findall('interface')
+                    if x.get('name').startswith('org.ex.')}
+            if got != {mine[0]}:
+                viol.append(('churn/introspect/interfaces',
+                             '%s: Introspect of the %s object at %s lists '
+                             'the interfaces %r' % (where, mine[0], path,
+                                                    sorted(got))))
+                return viol
+            r = call('/churn', 'org.freedesktop.DBus.ObjectManager',
+                     'GetManagedObjects')
+            got = None
+            if len(r) == 1 and r[0]['type'] == 2:
+                got = {p_: {k: v for k, v in d.items()
+                            if k.startswith('org.ex.')}
+                       for p_, d in r[0]['body_plain'][0].items()}
+            want = {p_: {i: pr} for p_, (i, pr) in alive.items()}
+            if got != want:
+                bad = sorted(p_ for p_ in set(got or {}) | set(want)
+                             if (got or {}).get(p_) != want.get(p_))
+                viol.append(('churn/managed',
+                             '%s: GetManagedObjects(/churn) differs from '
+                             'the exported objects at %r: reported %r, '
+                             'exported %r'
+                             % (where, bad[:3],
+                                [(got or {}).get(b) for b in bad[:3]],
+                                [want.get(b) for b in bad[:3]])))
+                return viol
+            if len(order) > live or same_path:
+                gone = order.pop(0)
+                gi = alive.pop(gone)
+                cw.conn.unexportObject(gone)
+                gc.collect()
+                sigs = cw.sent()
+                ann = [m for m in sigs if m['type'] == 4 and
+                       m['fields'].get('member') == 'InterfacesRemoved']
+                names = set(ann[0]['body_plain'][1]) if len(ann) == 1 \
+                    else set()
+                if len(sigs) != 1 or len(ann) != 1 or \
+                        ann[0]['body'][0] != gone or \
+                        {x for x in names if x.startswith('org.ex.')} \
+                        != {gi[0]}:
+                    viol.append(('churn/announcement/removed',
+                                 '%s: unexport of the %s object at %s '
+                                 'announced %r'
+                                 % (where, gi[0], gone,
+                                    [(m['fields'].get('member'),
+                                      m['body_plain']) for m in sigs])))
+                    return viol
+    except Exception as e:
+        viol.append(('churn/raises-%s' % type(e).__name__,
+                     'export / query / unexport cycles: %r' % (e,)))
+    finally:
+        cw.close()
+    return viol
+
+
+CHURN = [(60, 0, True), (200, 0, False), (300, 7, False), (400, 40, False)]
+
+
+def _task_churn(args):
+    res = core.Result()
+    res.count('states', args[0])
+    res.count('transitions', args[0] * 4)
+    res.count('evaluations', args[0] * 3)
+    res.count('nontrivial', args[0])
+    for t, w in run_churn(*args):
+        res.violation('%s/%s' % (PROP, t), w, {'part': 'churn',
+                                               'args': list(args)},
+                      size=args[0])
+    return res
+
+
 def run(ctx):
     ctx.rule = (
         'breadth-first search over export(p)/unexport(p) for p in %r, '
@@ -388,7 +542,10 @@ def run(ctx):
         'UnknownObject when unexported); each event must emit exactly one '
         'InterfacesAdded / InterfacesRemoved for that path. A second pass '
         'adds the event "export another object at an occupied path", a '
-        'third exports the same instance again after it was unexported'
+        'third exports the same instance again after it was unexported. '
+        'Long-lived connection: 60..400 cycles of export / query / unexport '
+        'of short-lived objects of two classes (different interfaces and '
+        'properties) beneath a permanent parent, 0, 7 or 40 live at a time'
         % (UNIVERSE, 3 if ctx.quick else 5))
     ctx.assumptions = ['unexport is only called for an exported path; an '
                        'export at an occupied path (a different object) '
@@ -419,8 +576,12 @@ def run(ctx):
                     {'dedup': False, 'reexport': tuple(range(7))},
                     max_depth=3 if ctx.quick else 5,
                     label='all histories, no deduplication')
+    ctx.map(_task_churn, CHURN)
     ctx.bounds = {'paths': len(UNIVERSE)}
 
 
 def replay(data):
+    if data.get('part') == 'churn':
+        return [('%s/%s' % (PROP, t), w) for t, w in
+                run_churn(*data['args'])]
     return explore.replay_violation(data)
